@@ -254,7 +254,7 @@ MUTANTS += [
     M('pchk-srand-conditional', ['C05', 'C12'], PCHKC, '	of_rfc5170_srand (seed);\n', '	if (seed != 1) of_rfc5170_srand (seed);\n', 'R-SRAND-DOM'),
     M('pchk-reads-cb', 'C05', PCHKC, '	skipCols = nb_rows;\n	nbDataCols = nb_cols - skipCols;', '	skipCols = nb_rows;\n	nbDataCols = nb_cols - skipCols;\n	if (ofcb->codec_type & OF_DECODER) left_degree = left_degree;\n	else if (ofcb->nb_source_symbol_ready) seed++;', 'R-PURE-PCHK'),
     M('pchk-callsite-n1-from-cb-default', 'C05', LDPCAPI, '						   ofcb->N1,\n						   ofcb->prng_seed,', '						   ofcb->N1,\n						   ofcb->prng_seed + ofcb->first_non_decoded,', 'R-PURE-PCHK'),
-    M('pchk-static-cache', 'C12', PCHKC, '	UINT32		skipCols = 0;		// avoid warning', '	static UINT32	last_seed;\n	UINT32		skipCols = 0;		// avoid warning\n	if (seed == last_seed) seed = last_seed; last_seed = seed;', 'R-GLOBALS', expect=2),
+    M('pchk-static-cache', 'C12', PCHKC, '	UINT32		skipCols = 0;		// avoid warning', '	static UINT32	last_seed;\n	UINT32		skipCols = 0;		// avoid warning\n	if (seed == last_seed) seed = last_seed; last_seed = seed;', 'R-GLOBALS'),
     M('pchk-staircase-short', ['C05', 'C15'], PCHKC, '	for (i = 1; i < nb_rows; i++)\n	{\n		/* for all other rows */', '	for (i = 1; i < nb_rows - 1; i++)\n	{\n		/* for all other rows */', 'R-STAIRCASE'),
     M('pchk-staircase-superdiag', ['C05', 'C15'], PCHKC, '		of_mod2sparse_insert (pchkMatrix, i, i - 1);', '		of_mod2sparse_insert (pchkMatrix, i - 1, i);', 'R-STAIRCASE'),
     M('pchk-colfill-skips-first-col', ['C05', 'C15'], PCHKC, '	for (j = skipCols; j < nb_cols; j++)', '	for (j = skipCols + 1; j < nb_cols; j++)', 'R-COLFILL'),
@@ -291,4 +291,31 @@ MUTANTS += [
     M('kern-multi-from-size', 'C13', SYM, '		from_size-=8;\n		from+=8;', '		from_size-=8;\n		from+=7;', 'R-KEA', count=1),
     M('kern-rs8-addmul-unroll', 'C13', RS8C, '	gf *lim = &dst[sz - UNROLL + 1] ;', '	gf *lim = &dst[sz - UNROLL + 2] ;', 'R-KEA', count=2),
     M('benign-kern-loop-form', 'C13', SYM, '	for (i = symbolSize64; i > 0; i--)\n	{\n		*t ^= *f;\n		t++;\n		f++;\n	}', '	for (i = 0; i < symbolSize64; i++)\n	{\n		*t ^= *f;\n		t++;\n		f++;\n	}', expect=0, count=3),
+]
+
+P2D = 'src/lib_stable/2d_parity_matrix/of_2d_parity_api.c'
+PCHKGEN = 'src/lib_common/linear_binary_codes_utils/of_create_pchk.c'
+P2DH = 'src/lib_stable/2d_parity_matrix/of_2d_parity.h'
+GFCODE = 'src/lib_stable/reed-solomon_gf_2_m/galois_field_codes_utils/of_galois_field_code.c'
+MUTANTS += [
+    # ---- C06 / C07 / C03 / C16
+    REV('revert-nullslot-fix', ['C06', 'C07', 'C16'], '3bfdd69', 'R-NULLSLOT'),
+    REV('revert-2d-layout', 'C16', 'd952100', 'R-LAYOUT'),
+    REV('revert-2d-setavail', 'C16', '6314a4b', 'R-SETAVAIL'),
+    REV('revert-2d-stride', 'C16', '92781fe', 'R-2D-RADIX'),
+    M('rs-decode-in-place', ['C07', 'C01'], RSAPI, '			memcpy(tmp_buf[tmp_idx], *ass_buf, ofcb->encoding_symbol_length);\n			tmp_esi[tmp_idx] = ass_esi;', '			tmp_buf[tmp_idx] = *ass_buf;\n			tmp_esi[tmp_idx] = ass_esi;', 'R-RO-FLOW'),
+    M('it-writes-received', ['C07', 'C06'], ITDEC, '				of_add_to_symbol (const_term, new_symbol, ofcb->encoding_symbol_length', '				of_add_to_symbol (new_symbol, const_term, ofcb->encoding_symbol_length', 'R-RO-FLOW'),
+    M('ldpc-enc-writes-source', ['C06', 'C07'], LDPCAPI, '			of_add_to_symbol (parity_symbol, to_add_buf, ofcb->encoding_symbol_length);', '			of_add_to_symbol (to_add_buf, parity_symbol, ofcb->encoding_symbol_length);', 'R-'),
+    M('ldpc-enc-no-zero', 'C06', LDPCAPI, '	parity_symbol = encoding_symbols_tab[esi_of_symbol_to_build];\n	memset (parity_symbol, 0, ofcb->encoding_symbol_length);', '	parity_symbol = encoding_symbols_tab[esi_of_symbol_to_build];', 'R-ENC-LOOP'),
+    M('ldpc-enc-adds-self', 'C06', LDPCAPI, '		if (e->col != col_to_build)\n		{\n			// don\'t add paritySymbol to itself', '		if (1)\n		{\n			// don\'t add paritySymbol to itself', 'R-ENC-LOOP'),
+    M('rs-enc-loop-k-1', 'C06', RS8C, '		for (i = 0; i < k ; i++)\n			addmul (fec, src[i], p[i], sz) ;', '		for (i = 1; i < k ; i++)\n			addmul (fec, src[i], p[i], sz) ;', 'R-ENC-LOOP'),
+    M('rs-nullslot-dropped', ['C06', 'C07'], RSAPI, '	if (encoding_symbols_tab[esi_of_symbol_to_build] == NULL)\n	{\n		if ((encoding_symbols_tab[esi_of_symbol_to_build] = of_calloc (1, ofcb->encoding_symbol_length)) == NULL)',
+      '	if (0)\n	{\n		if ((encoding_symbols_tab[esi_of_symbol_to_build] = of_calloc (1, ofcb->encoding_symbol_length)) == NULL)', 'R-NULLSLOT'),
+    M('ml-skips-repair-injection', 'C03', MLDEC, '	for (i = 0 ; i < ofcb->nb_repair_symbols ; i++)\n	{\n		if (ofcb->encoding_symbols_tab[ofcb->nb_source_symbols+permutation_array[i]] != NULL)',
+      '	for (i = 0 ; i + 1 < ofcb->nb_repair_symbols ; i++)\n	{\n		if (ofcb->encoding_symbols_tab[ofcb->nb_source_symbols+permutation_array[i]] != NULL)', 'R-ML-PIPELINE'),
+    M('ml-writeback-short', 'C03', MLDEC, '	for (i = 0; i < ofcb->nb_source_symbols; i++)\n	{\n		if (ofcb->encoding_symbols_tab[i] == NULL)\n		{\n			void	*decoded_symbol_dst',
+      '	for (i = 0; i + 1 < ofcb->nb_source_symbols; i++)\n	{\n		if (ofcb->encoding_symbols_tab[i] == NULL)\n		{\n			void	*decoded_symbol_dst', 'R-ML-PIPELINE'),
+    M('2d-member-removed', 'C16', P2DH, '	void**		tmp_tab_symbols;\n	UINT16		nb_tmp_symbols;\n', '	void**		tmp_tab_symbols;\n', 'R-LAYOUT'),
+    M('2d-radix-swapped', 'C16', PCHKGEN, '			of_mod2sparse_insert(m, i, j + (i * l) + l + d);', '			of_mod2sparse_insert(m, i, j + (i * d) + l + d);', 'R-2D-RADIX'),
+    M('2d-release-leak', 'C16', P2D, '		if (ofcb->tmp_tab_symbols != NULL)\n		{\n			of_free(ofcb->tmp_tab_symbols);\n			ofcb->tmp_tab_symbols = NULL;\n		}', '', 'R-OWN-FIELD'),
 ]
